@@ -244,6 +244,8 @@ impl<T: Config> SpectatorSession<T> {
             }
             // disconnect the player, then forward to user
             Event::Disconnected => {
+                // the host is gone for good: stop the endpoint, so that nothing further is reported for it
+                self.host.disconnect();
                 self.event_queue.push_back(GgrsEvent::Disconnected { addr });
             }
             // add the input and all associated information
